@@ -338,6 +338,7 @@ type ValCfg struct {
 	AllFields   bool // every struct field present
 	ShuffleFlds bool // struct fields in random wire order
 	PlainStr    bool // strings restricted to printable ASCII without escapes
+	NegByteKeys bool // allow negative byte map keys (only where the key's denotation is well defined, e.g. JSON)
 }
 
 func GenInt(r *h.Rand, t byte) int64 {
@@ -527,7 +528,7 @@ func GenVal(r *h.Rand, t *Type, cfg ValCfg, depth int) *tref.Val {
 				kc.MaxStr = 40
 			}
 			k := GenVal(r, t.Key, kc, depth+1)
-			if k.T == tref.BYTE && k.I < 0 {
+			if k.T == tref.BYTE && k.I < 0 && !cfg.NegByteKeys {
 				// an int derived from a BYTE is unsigned in dynamicgo (pinned by the repo's TestCastInt8),
 				// so negative byte keys have no single int denotation: keep byte keys in 0..127
 				k.I = -(k.I + 1)
